@@ -748,6 +748,71 @@ func ruleCutFoundNotRefused(id string) func(*Checker) {
 }
 
 // ruleC19SameFile — what a dereferenced link's body is read from is the file that was examined.
+// paramOpened: the i-th parameter of g is (part of) a path g hands to os.Open,
+// itself or through module helpers up to the given depth.
+func paramOpened(p *Prog, g *ssa.Function, i int, depth int) bool {
+	if g == nil || i >= len(g.Params) {
+		return false
+	}
+	prm := g.Params[i]
+	for _, ci := range callsIn(g) {
+		cl, ok := ci.(*ssa.Call)
+		if !ok {
+			continue
+		}
+		if isFunc(calleeObj(cl), "os", "Open") {
+			if canon(cl.Call.Args[0]) == ssa.Value(prm) {
+				return true
+			}
+			continue
+		}
+		h := cl.Common().StaticCallee()
+		if h == nil || !p.InModule(h) || depth == 0 || h == g {
+			continue
+		}
+		for j, a := range cl.Call.Args {
+			if canon(a) == ssa.Value(prm) && paramOpened(p, h, j, depth-1) {
+				return true
+			}
+		}
+	}
+	// closures of g that open the captured parameter (the walk function a maker returns)
+	for _, an := range g.AnonFuncs {
+		for fi, fv := range an.FreeVars {
+			_ = fi
+			bound := false
+			for _, mc := range closureSites(an) {
+				for bi, b := range mc.Bindings {
+					if bi < len(an.FreeVars) && an.FreeVars[bi] == fv {
+						if b == ssa.Value(prm) {
+							bound = true
+						} else if al, ok := b.(*ssa.Alloc); ok {
+							for _, st := range storesTo(g, al) {
+								if st.Val == ssa.Value(prm) {
+									bound = true
+								}
+							}
+						}
+					}
+				}
+			}
+			if !bound {
+				continue
+			}
+			for _, ci := range callsIn(an) {
+				cl, ok := ci.(*ssa.Call)
+				if !ok || !isFunc(calleeObj(cl), "os", "Open") {
+					continue
+				}
+				if p.backSlice(cl.Call.Args[0], 0)[fv] {
+					return true
+				}
+			}
+		}
+	}
+	return false
+}
+
 func ruleC19SameFile(c *Checker) {
 	const R = "C19.samefile"
 	c.rule(R, "Where the Pack walk turns a link entry into a regular-file entry (the store of tar.TypeReg into the header of a symlink), the regular-file verdict comes from the resolver, which follows the chain of links as it is spelled; the body is read by opening the link, which the kernel resolves physically — through a directory that is itself a link, `dir/../x` is another file. The conversion therefore lies behind the true edge of os.SameFile(os.Stat(<the path that is opened>), <the resolver's info>): otherwise a fifo can be opened that was never examined (Pack blocks forever, F50), or the header describes one file and the body comes from another.", 1)
@@ -772,17 +837,11 @@ func ruleC19SameFile(c *Checker) {
 			if g == nil || !p.InModule(g) {
 				continue
 			}
-			opens := false
-			for h := range p.reach(g) {
-				if len(callsTo(h, func(o *types.Func) bool { return isFunc(o, "os", "Open") })) > 0 {
-					opens = true
-				}
-			}
-			if opens {
-				for _, a := range cl.Call.Args {
-					if isStringType(a.Type()) {
-						opened = append(opened, a)
-					}
+			// the arguments that reach os.Open inside the helper (not every string it is given: the nested
+			// walk takes the position in the archive as well, which names no file)
+			for i, a := range cl.Call.Args {
+				if isStringType(a.Type()) && i < len(g.Params) && paramOpened(p, g, i, 2) {
+					opened = append(opened, a)
 				}
 			}
 		}
